@@ -52,3 +52,9 @@ CLAIMS["C10"] = dict(
     text="For every program and every assignment of user values the minimal configuration is produced by Kconfig.write_min_config in all four labels x normalize_unset variants and by kconfgen.write_min_config (with and without ESP_IDF_KCONFIG_MIN_LABELS); every distinct file is loaded into a fresh instance of the same tree and every option's value compared with the original; labelled and unlabelled variants must list the same assignment lines in the same order.",
     note="Quick tier uses a 2-value domain per non-bool type chosen to include a value equal to a Kconfig default; thorough the full C01 domains.",
 )
+CLAIMS["C11"] = dict(
+    category="exploration",
+    technique="bounded exhaustive enumeration of rename tables (all 1- and 2-line tables over a 13-line alphabet, also split over two files) x all ordered sdkconfig files of <=2/3 lines mixing old and new names; real loader compared with a source-level translation reference; deprecated-block clauses per table x configuration",
+    text="For every rename table and every ordered sdkconfig file over the old/new names it mentions (=v and `is not set` forms), loading the file into a fresh real Kconfig is compared with loading its translation (old -> new, y/n swapped for `!` renames of bools, `not set` on an inverted alias -> y; last mapping wins; names that are also defined options are not translated): option values, user values, re-written sdkconfig; deprecated names with a defined replacement must not appear in missing_syms. For every table x 5 configurations the file written with the deprecated block must load (default flag) exactly like the block-less file even when the block is edited to contradict the body, and with load_deprecated=True every alias evaluates (eval_string) to what was written.",
+    note="Hand-written files carry no `# default:` markers before deprecated names; a mapping to an undefined option only has to load without raising.",
+)
